@@ -600,12 +600,16 @@ impl TypedStmt {
 
                 let mut i = 0;
                 while i < array.len() {
+                    // each iteration gets its own scope, so that bindings introduced by the body
+                    // (which might shadow outer variables) do not leak into the next iteration:
+                    env.push();
                     let binding = &array[i..i + elem_in_bits];
                     pattern.compile(binding, prg, env, circuit);
 
                     for stmt in body {
                         stmt.compile(prg, env, circuit);
                     }
+                    env.pop();
                     i += elem_in_bits;
                 }
                 env.pop();
